@@ -328,11 +328,14 @@ func buildOperation(key string, r *expr.RouteExpr, bodies *EndpointBodies, rand 
 				// definition. So it is okay to change the first successful
 				// response to a HTTP 101 response for openapi docs.
 				if _, ok := responses[strconv.Itoa(expr.StatusSwitchingProtocols)]; !ok {
-					b := bodies.ResponseBodies[r.StatusCode]
-					delete(bodies.ResponseBodies, r.StatusCode)
+					// bodies is shared by all the routes of the endpoint: the
+					// body schemas are moved under 101 once and stay there.
+					if b, ok := bodies.ResponseBodies[r.StatusCode]; ok {
+						delete(bodies.ResponseBodies, r.StatusCode)
+						bodies.ResponseBodies[expr.StatusSwitchingProtocols] = b
+					}
 					r = r.Dup()
 					r.StatusCode = expr.StatusSwitchingProtocols
-					bodies.ResponseBodies[r.StatusCode] = b
 				}
 			}
 			resp := responseFromExpr(r, bodiesFor(r.StatusCode), rand)
